@@ -112,7 +112,7 @@ def task_field(a, env):
         for n in small_exps + (more_exps if i < 12 else []):
             check("pow", x, n, xm, n, "exp")
         if i < (3 if cfg.mc is not None and len(cfg.mc) == 12 else 12):
-            for n in huge if i < 2 else huge[:-1]:
+            for n in huge if i < (1 if cfg.mc is not None and len(cfg.mc) == 12 else 2) else huge[:-1]:
                 check("pow", x, n, xm, n, "exp")
         # x * inv(x) == 1, stated directly with the library's own operators
         r.ev += 1
